@@ -231,6 +231,7 @@ HELPERS = {
     "apply2": ("fn", "apply2", ["f", "a", "b"], True, [("R", [call("f", V("a"), V("b"))])], "(f func(int, int) int, a, b int) int"),
     "each": ("fn", "each", ["f"], False, [("E", False, call("f", I(1))), ("E", False, call("f", I(2)))], "(f func(int))"),
     "twice": ("fn", "twice", ["f"], False, [("E", False, call("f")), ("E", False, call("f"))], "(f func())"),
+    "sinks": ("fn", "sinks", ["s"], False, [("E", False, sel("fmt", "Println", S("sink"), V("s")))], "(s string)"),
 }
 
 
@@ -259,7 +260,8 @@ class Gen:
     """Go main programs: fmt printing (Println/Printf/Print/Sprint/Sprintf/Fprintln), package functions
     (strings.ToUpper/Repeat, strconv.Itoa), user functions and methods, function-literal arguments.
     NOT generated (deterministic set): binders named like an import or like an XGo builtin, types
-    with a lower-case twin of a method, call statements in a for-post position, negative literals."""
+    with a lower-case twin of a method, call statements in a for-post position, negative literals,
+    a `var` statement as first statement of main."""
 
     VARS = ["a", "b", "c", "x", "y", "k", "v", "w"]
 
@@ -367,7 +369,7 @@ class Gen:
         if not res and not body:
             body = self.stmts(d + 2, 1)
         if not res and not body:
-            body = [println(S("lit"))]
+            body = [("E", False, sel("fmt", "Println", I(0)))] if self.shadowed() else [println(S("lit"))]
         self.close(body, mark)
         if res:
             body.append(("R", [self.int_expr(d + 1)]))
@@ -466,7 +468,12 @@ class Gen:
         """every variable declared since `mark` is printed once (Go rejects unused variables)"""
         for x, t in self.used_later[mark:]:
             if self.shadowed():
-                body.append(("E", False, sel("fmt", "Println", sel(x, "Get") if t == "T" else V(x))))
+                # fmt is a variable of type P here: P.Println takes one int; strings go through a helper
+                if t == "string":
+                    self.need.add("sinks")
+                    body.append(("E", False, call("sinks", V(x))))
+                else:
+                    body.append(("E", False, sel("fmt", "Println", sel(x, "Get") if t == "T" else V(x))))
             elif t == "T":
                 body.append(println(S(x), sel(x, "Get")))
             else:
@@ -514,6 +521,12 @@ class Gen:
                 self.scopes[0][n] = "int"
             self.note("decl:var")
         main_body = self.block_with_uses(1, 3 + self.rng.below(5))
+        if main_body and main_body[0][0] == "W":
+            # leading `var` statements of an unwrapped main are re-read as package-level declarations
+            # (known finding det-leading-var-* / raw-init-order): not generated at random
+            main_body.insert(0, println(S("main")))
+        if "fmt" not in render([("fn", "main", [], False, main_body, None)] + decls + gl):
+            main_body.append(println(S("end")))     # the fmt import must be used (Go rejects unused imports)
         main = ("fn", "main", [], False, main_body, None)
         head = [("im", None, "fmt")] + [("im", None, p) for p in sorted(self.imports)]
         mid = []
